@@ -108,6 +108,7 @@ package volume
 //@ guarantees[C06] "input-volume" len(arg(Mfi_Compute, 0, 3)) == len(snapshots) && (forall k :: 0 <= k && k < len(snapshots) ==> arg(Mfi_Compute, 0, 3)[k] == snapshots[k].Volume)
 //@ guarantees[C06] "above-sell-threshold-sells" forall k :: 0 <= k && k < len(res(Mfi_Compute, 0)) ==> (m.BuyAt < m.SellAt && res(Mfi_Compute, 0)[k] > m.SellAt ==> result[k + m.MoneyFlowIndex.IdlePeriod()] == 0 - 1)
 //@ guarantees[C06] "below-buy-threshold-buys" forall k :: 0 <= k && k < len(res(Mfi_Compute, 0)) ==> (m.BuyAt < m.SellAt && res(Mfi_Compute, 0)[k] < m.BuyAt ==> result[k + m.MoneyFlowIndex.IdlePeriod()] == 1)
+//@ guarantees[C06] "between-the-thresholds-holds" forall k :: 0 <= k && k < len(res(Mfi_Compute, 0)) ==> (res(Mfi_Compute, 0)[k] > m.BuyAt && res(Mfi_Compute, 0)[k] < m.SellAt ==> result[k + m.MoneyFlowIndex.IdlePeriod()] == 0)
 //@ ensures[C05] "len" len(snapshots) >= (m.MoneyFlowIndex.IdlePeriod()) ==> len(result) == len(snapshots)
 //@ ensures[C05] "len-short" len(result) >= len(snapshots)
 //@ ensures[C05] "warmup-hold" forall kk :: 0 <= kk && kk < min((m.MoneyFlowIndex.IdlePeriod()), len(result)) ==> result[kk] == 0
